@@ -226,7 +226,9 @@ func init() {
 		// (spaces around ':' as printed there, free alignment of the numbers)
 		good := "NAME : tiny\nCOMMENT : three cities\nTYPE : TSP\nDIMENSION : 3\nEDGE_WEIGHT_TYPE : EXPLICIT\n" +
 			"EDGE_WEIGHT_FORMAT : LOWER_DIAG_ROW\nEDGE_WEIGHT_SECTION\n0\n  -5 0\n 7\t9223372036854775807   0\nEOF\n"
-		w := func(i, j int) int64 { return map[[2]int]int64{{1, 0}: -5, {2, 0}: 7, {2, 1}: 9223372036854775807}[[2]int{i, j}] }
+		w := func(i, j int) int64 {
+			return map[[2]int]int64{{1, 0}: -5, {2, 0}: 7, {2, 1}: 9223372036854775807}[[2]int{i, j}]
+		}
 		d, e := parseTSPLIB([]byte(good))
 		if e != nil {
 			return fmt.Errorf("good document rejected: %v", e)
